@@ -267,6 +267,14 @@ func (ex *Exec) callIntrinsic(fr *frame, pos token.Pos, fn *ssa.Function, args [
 	case "NondetMapOrder":
 		ex.nondetMapOrder = true
 		return nil
+	case "LongRun":
+		// the harness runs concrete code of known, large cost (the ANTLR recogniser: about a million instructions for the
+		// first parse of a process): the instruction budget of a path is raised for this harness (once)
+		if !ex.longRun {
+			ex.longRun = true
+			ex.lim.MaxSteps *= 12
+		}
+		return nil
 	case "ExactFloat":
 		ex.exactFloat = true
 		return nil
